@@ -497,3 +497,46 @@ impl OSr for OPoly {
         Some((s, f))
     }
 }
+
+#[cfg(test)]
+mod tests {
+    use super::*;
+
+    #[test]
+    fn sums_by_hand() {
+        // f = x0 | x1 over 2 variables, weights (l,h): x0 = (1/4, 3/4), x1 = (1/2, 1/2)
+        let t = Tt::var(2, 0).or(&Tt::var(2, 1));
+        let w = vec![
+            (OReal(Dy::new(1, 2)), OReal(Dy::new(3, 2))),
+            (OReal(Dy::new(1, 1)), OReal(Dy::new(1, 1))),
+        ];
+        // models: 10, 01, 11 -> 3/4*1/2 + 1/4*1/2 + 3/4*1/2 = 7/8
+        assert_eq!(full_sum(&t, &w).0, Dy::new(7, 3));
+        // normalised weights: unsmoothed == full sum, under either order
+        assert_eq!(unsmoothed(&t, &w, &[0, 1]).0, Dy::new(7, 3));
+        assert_eq!(unsmoothed(&t, &w, &[1, 0]).0, Dy::new(7, 3));
+        // non-normalised: f = x1 only; U ignores x0, the full sum does not
+        let g = Tt::var(2, 1);
+        let w2 = vec![(OReal(Dy::int(2)), OReal(Dy::int(3))), (OReal(Dy::int(5)), OReal(Dy::int(7)))];
+        assert_eq!(unsmoothed(&g, &w2, &[0, 1]).0, Dy::int(7));
+        assert_eq!(full_sum(&g, &w2).0, Dy::int(35));
+    }
+
+    #[test]
+    fn mirrors_agree_with_rsdd_on_simple_values() {
+        let a = OEu(Dy::new(1, 1), Dy::int(3));
+        let b = OEu(Dy::new(1, 2), Dy::int(-2));
+        assert!(a.mul(&b).matches(&(a.to_r() * b.to_r())));
+        assert!(a.add(&b).matches(&(a.to_r() + b.to_r())));
+        let p = OPoly::from(&[1, 2]);
+        let q = OPoly::from(&[0, 1, 1]);
+        assert!(p.mul(&q).matches(&(p.to_r() * q.to_r())));
+        assert_eq!(p.mul(&q).used(), 4);
+        let r = ORat(6);
+        assert!(r.matches(&r.to_r()));
+        assert!(!ORat(5).matches(&r.to_r()));
+        let c = OCx(Dy::new(1, 1), Dy::int(-1));
+        assert!(c.mul(&c).matches(&(c.to_r() * c.to_r())));
+        assert!(float_exact(&[(a.clone(), b.clone())]));
+    }
+}
